@@ -11,8 +11,8 @@
      parser, whatever the wrapped ansi parser answers.
    Outside: every drawing primitive beyond put_pixel / bar_rect, fonts, buttons, icons, flood fill, all of IGS (search stage only). *)
 From Coq Require Import NArith ZArith List Bool.
-From IE Require Import Gen.RipGen Model.RipTok Model.BgiKernel Model.RipStream
-                       Proofs.RipTokProofs Proofs.BgiProofs Proofs.RipStreamProofs.
+From IE Require Import Gen.RipGen Gen.RipLineGen Model.RipTok Model.BgiKernel Model.RipStream Model.BgiLine Model.RipStream2
+                       Proofs.RipTokProofs Proofs.BgiProofs Proofs.RipStreamProofs Proofs.RipVecProofs Proofs.BgiLineProofs Proofs.RipStream2Proofs.
 Import ListNotations.
 Local Open Scope Z_scope.
 
@@ -133,3 +133,125 @@ Example row_loop_clips : row_loop_px [1; 2; 3]%N 2 [7; 8; 9]%N = Ok [1; 2; 7]%N.
 Proof. reflexivity. Qed.
 Example args_nontrivial : ArgsOk {| pc_cmd := CBar; pc_fields := [0; 0; 1295; 1295]; pc_vec := []; pc_textlen := 0 |}.
 Proof. split; [reflexivity|]. repeat constructor; unfold PMAX; discriminate. Qed.
+
+(* ================================================================================================================= *)
+(* Extension 1: the line family of the BGI kernel (Model/BgiLine.v) and the RIP commands Line, Rectangle, Polygon,
+   PolyLine, LineStyle (Model/RipStream2.v).                                                                          *)
+
+(* Bgi::line over an abstract canvas: for EVERY plot function that returns normally on coordinates within +-2^20, keeps an
+   invariant P and raises a measure mu by at most 1 per call, Bgi::line with end points within +-65535, any viewport with
+   corners in 0..=65535, any non-empty line pattern and any thickness 0..=65535 returns normally (no i32 overflow, no pattern
+   index out of range, no division by zero), keeps P, and raises mu by at most (3(|dx|+|dy|)+8)*thickness.  Because the plot
+   function is arbitrary outside the box, this also says: every pixel the line plots is handed to plot with coordinates inside
+   the box — the clipping to the viewport happens BEFORE the pixel loops. *)
+Theorem line_canvas_generic : forall (A : Type) (plot : A -> Z -> Z -> res A) (P : A -> Prop) (mu : A -> Z),
+  (forall a x y, P a -> - RB <= x <= RB -> - RB <= y <= RB -> exists a', plot a x y = Ok a' /\ P a' /\ mu a' <= mu a + 1) ->
+  forall vp pat K a x1 y1 x2 y2, P a -> VpOk vp -> (0 < length pat)%nat -> 0 <= K <= PMAX ->
+  CoordOk x1 -> CoordOk y1 -> CoordOk x2 -> CoordOk y2 ->
+  exists a', line plot vp pat K a x1 y1 x2 y2 = Ok a' /\ P a' /\ mu a' <= mu a + (3 * (Z.abs (x2 - x1) + Z.abs (y2 - y1)) + 8) * K.
+Proof. exact line_ok. Qed.
+
+(* one clipped run of a line: at most (|count|+2) columns of at most `thickness` pixels; the pattern offset moves forward by at
+   most 2|count|+2 *)
+Theorem fill_x_generic : forall (A : Type) (plot : A -> Z -> Z -> res A) (P : A -> Prop) (mu : A -> Z),
+  (forall a x y, P a -> - RB <= x <= RB -> - RB <= y <= RB -> exists a', plot a x y = Ok a' /\ P a' /\ mu a' <= mu a + 1) ->
+  forall vp pat K a y sx count off, P a -> VpOk vp -> (0 < length pat)%nat -> 0 <= K <= PMAX ->
+  - RB <= y <= RB -> - RB <= sx <= RB -> - RB <= count <= RB -> - OBH <= off <= OBH ->
+  exists a' off', fill_x plot vp pat K a y sx count off = Ok (a', off') /\ P a' /\ off <= off' <= off + 2 * Z.abs count + 2 /\
+                  mu a' <= mu a + (Z.abs count + 2) * K.
+Proof. exact fill_x_ok. Qed.
+
+Theorem fill_y_generic : forall (A : Type) (plot : A -> Z -> Z -> res A) (P : A -> Prop) (mu : A -> Z),
+  (forall a x y, P a -> - RB <= x <= RB -> - RB <= y <= RB -> exists a', plot a x y = Ok a' /\ P a' /\ mu a' <= mu a + 1) ->
+  forall vp pat K a x sy count off, P a -> VpOk vp -> (0 < length pat)%nat -> 0 <= K <= PMAX ->
+  - RB <= x <= RB -> - RB <= sy <= RB -> - RB <= count <= RB -> - OBH <= off <= OBH ->
+  exists a' off', fill_y plot vp pat K a x sy count off = Ok (a', off') /\ P a' /\ off <= off' <= off + 2 * Z.abs count + 2 /\
+                  mu a' <= mu a + (Z.abs count + 2) * K.
+Proof. exact fill_y_ok. Qed.
+
+(* the real canvas: every plotted pixel goes through the checked Bgi::put_pixel *)
+Theorem line_safe : forall s x1 y1 x2 y2, InvL s -> CoordOk x1 -> CoordOk y1 -> CoordOk x2 -> CoordOk y2 ->
+  match bgi_line s x1 y1 x2 y2 with Ok s' => InvL s' /\ same_canvas2 s s' | Panic _ => False end.
+Proof. exact bgi_line_ok. Qed.
+
+Theorem rectangle_safe : forall s l t r b, InvL s -> CoordOk l -> CoordOk t -> CoordOk r -> CoordOk b ->
+  match bgi_rectangle s l t r b with Ok s' => InvL s' /\ same_canvas2 s s' | Panic _ => False end.
+Proof. exact bgi_rectangle_ok. Qed.
+
+Theorem draw_poly_safe : forall s pts, InvL s -> Forall PtOk pts ->
+  match bgi_draw_poly s pts with Ok s' => InvL s' /\ same_canvas2 s s' | Panic _ => False end.
+Proof. exact bgi_draw_poly_ok. Qed.
+
+Theorem draw_poly_line_safe : forall s pts, InvL s -> Forall PtOk pts ->
+  match bgi_draw_poly_line s pts with Ok s' => InvL s' /\ same_canvas2 s s' | Panic _ => False end.
+Proof. exact bgi_draw_poly_line_ok. Qed.
+
+(* cost: the number of put_pixel calls of one Bgi::line; with RIP parameters (<= 1295) at most 10 368 * thickness *)
+Theorem line_cost : forall vp pat K x1 y1 x2 y2, VpOk vp -> (0 < length pat)%nat -> 0 <= K <= PMAX ->
+  CoordOk x1 -> CoordOk y1 -> CoordOk x2 -> CoordOk y2 ->
+  exists n, line_plots vp pat K x1 y1 x2 y2 = Ok n /\ Z.of_nat n <= (3 * (Z.abs (x2 - x1) + Z.abs (y2 - y1)) + 8) * K.
+Proof. exact line_plots_bound. Qed.
+
+(* the tokenizer keeps the Vec<i32> of the command under construction (palette entries, polygon points) at two base-36 digits *)
+Theorem tokenizer_vec_range : forall fb t ch, 0 <= t_pstate t -> TokVec t ->
+  match tok_step fb t ch with SOk t' a _ => TokVec t' /\ ActVec a | SPanic _ => True end.
+Proof. exact tok_step_vec. Qed.
+
+Theorem kernel2_safe : forall s c, InvL s -> ArgsOk2 c ->
+  match run_cmd2 s c with
+  | ROk2 s' => InvL s' /\ same_canvas2 s s'
+  | RPanic2 _ => False
+  | RUnmodelled2 => True
+  end.
+Proof. exact run_cmd2_ok. Qed.
+
+Theorem kernel2_seq_safe : forall cs s, InvL s -> Forall ArgsOk2 cs ->
+  match run_cmds2 s cs with
+  | ROk2 s' => InvL s' /\ same_canvas2 s s'
+  | RPanic2 _ => False
+  | RUnmodelled2 => True
+  end.
+Proof. exact run_cmds2_ok. Qed.
+
+(* the commands whose run is inside the extended kernel never end a run as "unmodelled" *)
+Theorem kernel2_modelled : forall s c, modelled2 (pc_cmd c) = true -> run_cmd2 s c <> RUnmodelled2.
+Proof. exact modelled2_not_unmodelled. Qed.
+
+Theorem rip_stream_safe2 : forall (FS : Type) fb_print fb_mode fb_reset (fs : FS) cs errs,
+  Z.of_nat (length cs) <= I32_MAX ->
+  match fst (rip_run2 FS fb_print fb_mode fb_reset (rip_init2 FS fs) errs cs) with
+  | OOk2 s _ => TokInv (r_tok2 s) /\ InvL (r_bgi2 s) /\
+                Z.of_nat (length (screen (lb (r_bgi2 s)))) = SCREEN_W * SCREEN_H /\ win_w (lb (r_bgi2 s)) = SCREEN_W /\ win_h (lb (r_bgi2 s)) = SCREEN_H
+  | OPanic2 _ => False
+  | OUnmodelled2 => True
+  end.
+Proof. exact rip_stream_safe2_lemma. Qed.
+
+(* ---- non-vacuity ---- *)
+Definition run2 (cs : list N) := rip_run2 unit fb0 (fun _ => FDefault) (fun u => u) (rip_init2 unit tt) 0%N cs.
+
+(* "!|c0A|L00000402|" : colour 10, a line (0,0)-(4,2) in runs of 1, 2, 2 pixels: (0,0) | (1,1) (2,1) | (3,2) (4,2) *)
+Example stream_draws_line : match fst (run2 [33; 124; 99; 48; 65; 124; 76; 48; 48; 48; 48; 48; 52; 48; 50; 124]%N) with
+                            | OOk2 s _ => map (fun i => nth_error (screen (lb (r_bgi2 s))) i) [0; 1; 642; 643; 1284; 2; 641]%nat
+                                          = [Some 10; Some 0; Some 10; Some 0; Some 10; Some 0; Some 10]%N
+                            | _ => False end.
+Proof. vm_compute. reflexivity. Qed.
+
+(* "!|=010003|" : LineStyle dotted, thickness 3 *)
+Example linestyle_sets : match fst (run2 [33; 124; 61; 48; 49; 48; 48; 48; 48; 48; 51; 124]%N) with
+                         | OOk2 s _ => line_style (r_bgi2 s) = 1%N /\ line_thickness (r_bgi2 s) = 3 /\ line_pattern (r_bgi2 s) = bits16 52428
+                         | _ => False end.
+Proof. vm_compute. auto. Qed.
+
+(* "!|P" with 3 points draws; a circle is still outside *)
+Example unmodelled2_is_flagged : fst (run2 [33; 124; 67; 48; 48; 48; 48; 48; 48]%N) = OUnmodelled2.
+Proof. vm_compute. reflexivity. Qed.
+
+Example inv2_initial : InvL lbgi_new /\ TokVec tok_init.
+Proof. exact (conj lbgi_new_inv tok_init_vec). Qed.
+
+(* the checked sites of the line model do fire when their guards are missing: an empty pattern is a remainder by zero *)
+Example empty_pattern_panics : pat_at [] 0 = Panic SITE_REM_ZERO.
+Proof. reflexivity. Qed.
+Example line_cost_example : line_plots (0, 0, 640, 350) (bits16 65535) 3 0 0 1295 1295 = Ok 1049%nat.
+Proof. vm_compute. reflexivity. Qed.
